@@ -1,7 +1,7 @@
 (* C03 - Serialize-then-parse is the identity on protocol messages. Statements only. *)
 From Coq Require Import List NArith Bool String.
 Import ListNotations.
-From Indi Require Import Base.Sx Msg.Registry Msg.Equality Msg.Model Msg.Codec Msg.Conform Xml.Lex Xml.Print
+From Indi Require Import Base.Sx Msg.Registry Msg.Equality Msg.Model Msg.Codec Msg.Conform Xml.Lex Xml.Print Xml.RoundTrip
   Generated.RegistryData Generated.RegistryOk.
 
 Lemma live_part_tags_unique : nodup_strb (map ptag (rparts live_registry)) = true.
@@ -22,21 +22,20 @@ Theorem reserialisation_is_identical : forall m, msg_to_xml (norm_msg m) = msg_t
 Proof. exact reserialize_tree. Qed.
 Print Assumptions reserialisation_is_identical.
 
-(* string level, PARTIAL: conditional on the XML layer's own round trip
-   parse (print_doc t) = t, which is validated against ElementTree/expat by the
-   correspondence on every run but not yet proved for Xml.Lex/Xml.Print *)
-Theorem string_roundtrip_partial : forall m,
-  (forall t, parse (print_doc t) = (0%N, Some t)) ->
-  wfb live_registry m = true ->
+(* the XML layer: printing a tree and parsing the text gives the tree back, for every tree that can be printed
+   (names are XML names, attribute names distinct, characters XML can carry, text without carriage return) *)
+Theorem xml_print_then_parse_is_identity : forall t, tree_okb t = true -> parse (print_doc t) = (0%N, Some t).
+Proof. exact parse_print_b. Qed.
+Print Assumptions xml_print_then_parse_is_identity.
+
+(* string level: the bytes to_string produces are read back by from_string as the same message
+   (empty text = absent text), and serialising that again gives the same bytes *)
+Theorem string_roundtrip : forall m,
+  wfb live_registry m = true -> printable m = true ->
   from_string live_registry (to_string m) = Some (norm_msg m) /\
   to_string (norm_msg m) = to_string m.
-Proof. intros m Hx. exact (string_roundtrip_given_xml_layer live_registry m Hx live_part_tags_unique). Qed.
-Print Assumptions string_roundtrip_partial.
-
-(* the full statement the partial theorem falls short of *)
-Definition string_roundtrip_full_statement : Prop := forall m,
-  wfb live_registry m = true ->
-  from_string live_registry (to_string m) = Some (norm_msg m) /\ to_string (norm_msg m) = to_string m.
+Proof. intros m. exact (Msg.Codec.string_roundtrip live_registry m live_part_tags_unique). Qed.
+Print Assumptions string_roundtrip.
 
 (* non-vacuity: a plain <message> notice and a vector with two children are wfb,
    and their documents parse back (computed through the concrete XML model) *)
